@@ -13,6 +13,11 @@ Oracle (from the property statement + my own parse of pl/state.dot; nothing is t
   C10.reject  a trigger with no documented edge from the current state raises transitions.MachineError and
               changes nothing (state, transitioning, prior, priority, wait flags, poller slots, open_again,
               farm.ARCHIVE, outstanding steps, recorded side effects / printed lines)
+  C10.reject.busy  a trigger that HAS a documented edge from the current state but is refused with
+              transitions.MachineError (another transition is in progress: the transitioning guard is taken, e.g.
+              archiving_trigger while the reload step of 'updating' is outstanding) is a rejected trigger too: the
+              same comparison applies (state, transitioning, the name-mangled _FSM__prior, priority, ... unchanged,
+              no state write, no recorded side effect)
   C10.rest    whenever no background step is outstanding after >= 1 accepted trigger:
               state in {running, gitting} and transitioning == active
   C10.active  is_pipeline_active() is True only if state == 'running' and transitioning == active
@@ -37,9 +42,11 @@ BOUND = (
     '(doctest; deferred x db.archive sync/async, reopen True/False), merged on the observable configuration; '
     'continued to the fixpoint (<= 12 triggers) so that the sequences start from every reachable '
     'configuration; plus every un-merged history of <= 3 events (thorough: <= 5 events, 2 deferred modes) and '
-    'seeded un-merged random walks (quick 150 x <=25 events, thorough 3000 x <=40)'
+    'seeded un-merged random walks (quick 150 x <=25 events, thorough 3000 x <=40); every trigger call of these '
+    'histories that raises MachineError - undocumented from the state, or documented but refused while a '
+    'transition is in progress - is compared field by field (including _FSM__prior) with the configuration before it'
 )
-CLAUSES = ['C10.edge', 'C10.reject', 'C10.rest', 'C10.active', 'C10.active.rest']
+CLAUSES = ['C10.edge', 'C10.reject', 'C10.reject.busy', 'C10.rest', 'C10.active', 'C10.active.rest']
 
 MODES = [
     {'doctest': True, 'archive': 'sync', 'reopen': False},
@@ -197,8 +204,29 @@ def check(obs, accepted_before):
                         'nothing changes when a trigger is rejected',
                     )
                 )
-        elif obs['exc'] is None or obs['moves']:
-            accepted = True
+        else:
+            if isinstance(obs['exc'], K.MachineError) and changed:
+                # a documented edge, but the machine refused the trigger (a transition is in progress): rejected,
+                # so nothing may have changed - in particular not the state to return to after archiving
+                diff = {
+                    k: [b, a]
+                    for k, b, a in zip(K.SNAP_FIELDS, K.snap_dict(before).values(), K.snap_dict(after).values())
+                    if a != b
+                }
+                if obs['effects_before'] != obs['effects_after']:
+                    diff['side-effects'] = [list(obs['effects_before']), list(obs['effects_after'])]
+                if obs['moves']:
+                    diff['state-writes'] = [[], [list(m) for m in obs['moves']]]
+                out.append(
+                    (
+                        'C10.reject.busy',
+                        f'reject-busy:{s0}/{t0}:{arg}:changed:' + ','.join(sorted(diff)),
+                        {'raised': repr(obs['exc']), 'changed': diff, 'outstanding_before': [list(o) for o in before[-1]]},
+                        'nothing changes (state, transitioning, prior, ...) when a trigger is refused with MachineError',
+                    )
+                )
+            if obs['exc'] is None or obs['moves']:
+                accepted = True
     outstanding = after[-1]
     if obs['active']:
         if not (after[0] == 'running' and after[1] == 'active'):
